@@ -17,7 +17,8 @@ from concurrent.futures import ThreadPoolExecutor
 REPO = os.environ.get("VERIF_REPO", "/repo")
 VERIF = os.path.dirname(os.path.dirname(os.path.abspath(__file__)))
 CACHE = os.path.join(VERIF, ".cache", "obj")
-BUILD = os.path.join(VERIF, ".build")
+# a scratch copy of the repository (VERIF_REPO=<dir>) gets its own build directory; the object cache is shared (content addressed)
+BUILD = os.path.join(VERIF, ".build" if REPO == "/repo" else ".build-" + hashlib.sha256(REPO.encode()).hexdigest()[:8])
 GUARD = "ISAL_CRYPTO_VERIF"
 
 SAN = {
